@@ -16,6 +16,7 @@ package retry
 
 import (
 	"fmt"
+	"math"
 )
 
 // JitterAddingBackoff returns a Backoff that adds a random jitter value to the original delay using
@@ -49,9 +50,15 @@ func (f *JitterAddingBackoff) NextDelayMillis(numAttemptsSoFar int) (nextDelay i
 		return tmp
 	}
 
-	minJitter := int64(float64(tmp) * (1 + f.minJitterRate))
-	maxJitter := int64(float64(tmp) * (1 + f.maxJitterRate))
-	if nextDelay = minJitter + nextRandomInt64IncludingZero(maxJitter-minJitter+1); nextDelay < 0 {
+	// saturate instead of overflowing when the jittered delay exceeds int64
+	minJitter := saturatedMultiply(tmp, 1+f.minJitterRate)
+	maxJitter := saturatedMultiply(tmp, 1+f.maxJitterRate)
+	if width := maxJitter - minJitter; width < math.MaxInt64 {
+		nextDelay = minJitter + nextRandomInt64IncludingZero(width+1)
+	} else {
+		nextDelay = randomInt64() // whole non-negative range
+	}
+	if nextDelay < 0 {
 		nextDelay = 0
 	}
 	return
